@@ -76,14 +76,14 @@ Lemma src_RawU4_store_eq alt v buf index : 0 <= index -> 0 <= v <= mask U4 ->
 Proof. intros H Hv. rewrite (proj2 (proj2 (src_bits_inst_store alt v buf index))). apply src_store_bits_eq; [exact H|cbn; lia|exact Hv]. Qed.
 
 (* RawData::load::<O> = Rawdata.load at the raw type (the data order of RawU8 is irrelevant: its LoadStore impl ignores O) *)
-Lemma src_raw_dispatch_load_eq alt buf index : 0 <= index ->
-  src_RawU1_RawData_load alt buf index = load (U := usize64) U1 alt buf index /\
-  src_RawU2_RawData_load alt buf index = load (U := usize64) U2 alt buf index /\
-  src_RawU4_RawData_load alt buf index = load (U := usize64) U4 alt buf index /\
-  src_RawU8_RawData_load buf index = load (U := usize64) U8 alt buf index /\
-  src_RawU16_RawData_load alt buf index = load (U := usize64) U16 alt buf index /\
-  src_RawU24_RawData_load alt buf index = load (U := usize64) U24 alt buf index /\
-  src_RawU32_RawData_load alt buf index = load (U := usize64) U32 alt buf index.
+Lemma src_raw_dispatch_load_eq {U : Usize} alt buf index : 0 <= index ->
+  src_RawU1_RawData_load alt buf index = load U1 alt buf index /\
+  src_RawU2_RawData_load alt buf index = load U2 alt buf index /\
+  src_RawU4_RawData_load alt buf index = load U4 alt buf index /\
+  src_RawU8_RawData_load buf index = load U8 alt buf index /\
+  src_RawU16_RawData_load alt buf index = load U16 alt buf index /\
+  src_RawU24_RawData_load alt buf index = load U24 alt buf index /\
+  src_RawU32_RawData_load alt buf index = load U32 alt buf index.
 Proof.
   intros H. unfold load.
   repeat split.
@@ -101,10 +101,10 @@ Definition pair_ok (r : list Z * (unit + OutOfBoundsError)) : list Z * bool := (
 Lemma pair_ok_eta (r : list Z * (unit + OutOfBoundsError)) : pair_ok (let '(a, b) := r in (a, b)) = (fst r, res_ok (snd r)).
 Proof. destruct r; reflexivity. Qed.
 
-Lemma src_raw_dispatch_store_sub alt v buf index : 0 <= index ->
-  (0 <= v <= mask U1 -> pair_ok (src_RawU1_RawData_store alt v buf index) = store (U := usize64) U1 alt v buf index) /\
-  (0 <= v <= mask U2 -> pair_ok (src_RawU2_RawData_store alt v buf index) = store (U := usize64) U2 alt v buf index) /\
-  (0 <= v <= mask U4 -> pair_ok (src_RawU4_RawData_store alt v buf index) = store (U := usize64) U4 alt v buf index).
+Lemma src_raw_dispatch_store_sub {U : Usize} alt v buf index : 0 <= index ->
+  (0 <= v <= mask U1 -> pair_ok (src_RawU1_RawData_store alt v buf index) = store U1 alt v buf index) /\
+  (0 <= v <= mask U2 -> pair_ok (src_RawU2_RawData_store alt v buf index) = store U2 alt v buf index) /\
+  (0 <= v <= mask U4 -> pair_ok (src_RawU4_RawData_store alt v buf index) = store U4 alt v buf index).
 Proof.
   intros H. unfold store.
   repeat split; intros Hv.
@@ -113,11 +113,11 @@ Proof.
   - unfold src_RawU4_RawData_store. rewrite pair_ok_eta. exact (src_RawU4_store_eq alt v buf index H Hv).
 Qed.
 
-Lemma src_raw_dispatch_store_bytes alt v buf index : 0 <= index ->
-  pair_ok (src_RawU8_RawData_store v buf index) = store (U := usize64) U8 alt v buf index /\
-  pair_ok (src_RawU16_RawData_store alt v buf index) = store (U := usize64) U16 alt v buf index /\
-  pair_ok (src_RawU24_RawData_store alt v buf index) = store (U := usize64) U24 alt v buf index /\
-  pair_ok (src_RawU32_RawData_store alt v buf index) = store (U := usize64) U32 alt v buf index.
+Lemma src_raw_dispatch_store_bytes {U : Usize} alt v buf index : 0 <= index ->
+  pair_ok (src_RawU8_RawData_store v buf index) = store U8 alt v buf index /\
+  pair_ok (src_RawU16_RawData_store alt v buf index) = store U16 alt v buf index /\
+  pair_ok (src_RawU24_RawData_store alt v buf index) = store U24 alt v buf index /\
+  pair_ok (src_RawU32_RawData_store alt v buf index) = store U32 alt v buf index.
 Proof.
   intros H. unfold store.
   repeat split.
